@@ -3,6 +3,7 @@ From OxiVerif Require Import Base.Conv DD.Table DD.TableExtra DD.Sem DD.Build DD
   Mgr.Conc Mgr.OomOwn Mgr.OomOwnTie.
 From OxiVerif Require Import Num.I64 DD.ApplyBcdd DD.FamSpec DD.ZbddOps DD.ZbddBool DD.ApplyMtbdd
   Mgr.OomGen Mgr.OomBcdd Mgr.OomZbdd Mgr.OomMtbdd.
+From OxiVerif Require Import DD.Quant Mgr.OomBddQ DD.Tdd DD.ApplyTdd Mgr.OomTdd DD.QuantBcdd Mgr.OomBcddQ Mgr.OomZbddV.
 Extraction Language OCaml.
 Extraction "model.ml" conv_anchor
   Table.sem_edge Table.wf_b TableExtra.wf_full_b Table.rc_exact_b Table.no_dead_b
@@ -18,4 +19,8 @@ Extraction "model.ml" conv_anchor
   ZbddOps.zbdd_ok_b ZbddBool.zchain_ok_b OomZbdd.zset_nc OomZbdd.znot_nc OomZbdd.zop_nc OomZbdd.zite_nc
   OomZbdd.zsingleton_cap OomZbdd.zmake_node_cap
   ApplyMtbdd.mt_ok_b ApplyMtbdd.code ApplyMtbdd.decode I64.i64_one I64.i64_zero
-  OomMtbdd.mbin_nc OomMtbdd.mite_nc OomMtbdd.mrestrict_nc OomMtbdd.mt_const_cap OomMtbdd.mt_var_cap.
+  OomMtbdd.mbin_nc OomMtbdd.mite_nc OomMtbdd.mrestrict_nc OomMtbdd.mt_const_cap OomMtbdd.mt_var_cap
+  Apply.term_of OomBddQ.qrun_nc
+  ApplyTdd.td_ok_b OomTdd.trun_nc OomTdd.tcall_ok_b OomTdd.td_var_cap
+  OomBcddQ.cq_run_nc OomBcddQ.cqcall_ok_b
+  OomZbddV.zv_run_nc OomZbddV.zvcall_ok_b ZbddBool.zconst.
